@@ -74,6 +74,39 @@ theorem pres_evalExp (p : Program) (param : Option Val) (e : Exp) : Pres p (eval
     intro v
     apply pres_bind _ _ _ (pres_log p _)
     intro _; exact pres_pure p v
+  | cond t c a b ihc iha ihb =>
+    unfold evalExp
+    apply pres_bind _ _ _ ihc
+    intro vc
+    split
+    · exact pres_bind _ _ _ iha (fun _ => pres_pure p _)
+    · exact pres_bind _ _ _ ihb (fun _ => pres_pure p _)
+    · exact pres_fail p _
+  | chain present e ih =>
+    unfold evalExp
+    exact pres_bind _ _ _ ih (fun _ => pres_pure p _)
+  | coalesce a b iha ihb =>
+    unfold evalExp
+    apply pres_bind _ _ _ iha
+    intro va
+    split
+    · exact ihb
+    · exact pres_pure p _
+    · exact pres_fail p _
+  | force e ih =>
+    unfold evalExp
+    apply pres_bind _ _ _ ih
+    intro v
+    split
+    · exact pres_fail p _
+    · exact pres_pure p _
+    · exact pres_fail p _
+  | cast t e ih =>
+    unfold evalExp
+    exact pres_bind _ _ _ ih (fun _ => pres_pure p _)
+  | castq t e ih =>
+    unfold evalExp
+    exact pres_bind _ _ _ ih (fun _ => pres_pure p _)
 
 theorem pres_evalArgs (p : Program) (param : Option Val) (es : List Exp) (ps : List Param) :
     Pres p (evalArgs param es ps) := by
